@@ -5,7 +5,7 @@ package crypto
 
 //@ # signature values are valid iff 1 <= r < N, 1 <= s <= N/2 (homestead: low-S only) and the recovery id is 0 or 1 (C23)
 //@ func ValidateSignatureValues
-//@   serves C23
+//@   serves C23 C07
 //@   requires r != nil && s != nil
 //@   ensures exact: result <==> (r.val >= 1 && s.val >= 1 && r.val < secp256k1N.val && s.val < secp256k1N.val && (homestead ==> s.val <= secp256k1halfN.val) && (v == 0 || v == 1))
 //@   ensures order: secp256k1N.val == 115792089237316195423570985008687907852837564279074904382605163141518161494337 && secp256k1halfN.val == div(secp256k1N.val, 2)
